@@ -54,6 +54,23 @@ def run(tier, replay=None):
     if r.violation:
         raise vlib.Infra("TLexer.tla invariant failed (specification defect): " + r.violation)
     ck.add_tlc(r, "TLexer.tla: refinement and fresh-scan equivalence, all operation sequences")
+    # (1b) the same model for histories of any length: Apalache checks that IndInv (the TLC invariants strengthened by
+    # "every saved pointer lies inside what has been scanned") holds initially and is preserved by every action from any state
+    # satisfying it; two controls must fail (the TLC invariants alone are not inductive; the set of start states is not vacuous)
+    ind = dict(deps=("TLexerCore",), next_="CoreNext", cinit="CInit")
+    if not vlib.run_apalache("TLexerInd", init="CoreInit", inv="IndInv", length=0, **ind):
+        raise vlib.Infra("TLexerInd: IndInv does not hold initially (specification defect)")
+    if not vlib.run_apalache("TLexerInd", init="IndInit", inv="IndInv", length=1, **ind):
+        raise vlib.Infra("TLexerInd: IndInv is not inductive (specification defect)")
+    controls = 0
+    if tier == "thorough":
+        if vlib.run_apalache("TLexerInd", init="WeakInit", inv="WeakInv", length=1, **ind):
+            raise vlib.Infra("TLexerInd self-test: the invariants without PtrsScanned came out inductive")
+        if vlib.run_apalache("TLexerInd", init="IndInit", inv="NotFull", length=0, **ind):
+            raise vlib.Infra("TLexerInd self-test: IndInit admits no full snapshot stack over a fully scanned input (vacuous)")
+        controls = 2
+    ck.part("TLexerInd.tla: inductive invariant checked by Apalache (histories of any length, scans of 2-8 tokens, snapshot stacks up to 6)",
+            base_case=1, inductive_step=1, failing_controls=controls)
     seqs = [json.loads(l[4:]) for l in r.lines if l.startswith("OBS ")]
     cases = []
     for s in seqs:
